@@ -158,8 +158,20 @@ pub fn run_campaign(prop: &'static str, seed: u64, stats: &mut Stats) {
             Some(path) => {
                 let name = path.file_name().and_then(|s| s.to_str()).unwrap_or("").to_string();
                 let bytes = std::fs::read(&path).unwrap_or_default();
+                // the sanitizer runtime itself could not get memory from the system (a loaded
+                // machine): a resource failure of the campaign, not a finding about the crate
+                let resource = log.contains("AddressSanitizer: out of memory") || log.contains("Failed to mmap") || log.contains("failed to allocate") && log.contains("error code: 12");
+                // the saved input is the reproducible unit: it must fail again in a fresh process
+                let reproduces = || {
+                    let body = json!({"target": c.target, "input_hex": crate::isa::hex(&bytes)});
+                    matches!(replay(&body), Verdict::Fail { .. })
+                };
                 if name.starts_with("timeout-") || name.starts_with("oom-") || name.starts_with("slow-unit-") {
                     stats.inconclusive.push(format!("libFuzzer {} reported {name} (resource limit, not a violation)", c.target));
+                } else if resource {
+                    stats.inconclusive.push(format!("libFuzzer {}: the sanitizer runtime ran out of memory ({name}; resource failure, not a violation)", c.target));
+                } else if !reproduces() {
+                    stats.inconclusive.push(format!("libFuzzer {} saved {name}, but the target passes on that input in a fresh process (not reproducible, not reported)", c.target));
                 } else {
                     let why: Vec<&str> = log.lines().filter(|l| l.contains("panicked at") || l.contains("ERROR:") || l.contains("SUMMARY")).take(4).collect();
                     let body = json!({
